@@ -212,7 +212,7 @@ PROPS = {
     },
     "C09": {
         "level": "other",
-        "verus": [("prices", None), ("convert", ["PriceRepository::convert_single", "PriceRepository::new"]), ("bookkeep", ["PriceRepositoryBuilder::insert_price", "callsite:insert_impl division"]), ("determinism", ["callsite:compute_price_table.neighbor_order"])],
+        "verus": [("prices", None), ("convert", ["PriceRepository::convert_single", "PriceRepository::new"]), ("bookkeep", ["PriceRepositoryBuilder::insert_price", "callsite:insert_impl division", "callsite:load_price_db.event_of_a_line"]), ("determinism", ["callsite:compute_price_table.neighbor_order"])],
         "kani": {"quick": [], "thorough": []},
         "family": ("c09", {"quick": [], "thorough": ["thorough"]}),
         "technique": "contract-based deductive verification of the fragments of price selection that a contract can reach (Verus on functions and call-site slices extracted from /repo); the chain search itself "
@@ -242,7 +242,7 @@ PROPS = {
                         "NOT proved at call sites: insert_impl's call-order precondition (no lower-ranking source after a higher-ranking one for a pair); holds because process() loads the price database after the ledger (anchor)",
                         "assumed: slice::partition_point returns the length of the prefix satisfying the predicate (std, for a partitioned slice); Vec<(NaiveDate, Decimal)>::sort is a permutation ordered by date (std; R41: values_mut visits every value once)"],
         "bounded": ["c09 family: 255 (thorough: 381) price-fact subsets x 6 dates x 16 ordered commodity pairs = 24,480 (36,576) conversions; rates chosen so that reciprocals and products are exact decimals"],
-        "not_decided": ["optimality of the label-correcting search (bounded family only)", "load_price_db / parse::price (bounded family only)", "ties among equally good chains (left open by the statement)"],
+        "not_decided": ["optimality of the label-correcting search (bounded family only)", "parse::price and the reading of the price database file (bounded family only; the event a line records is a slice)", "ties among equally good chains (left open by the statement)"],
     },
     "C10": {
         "level": "other",
